@@ -215,6 +215,11 @@ func (ex *Exec) strIntrinsic(fn *ssa.Function, name string, args []Value) (Value
 		return ex.errValue(ex.describe(args[0])), true
 	}
 	if fn.Name() == "init" && fn.Pkg != ex.pkg {
+		// initialisers of other packages are skipped (their globals are opaque), except small pure-data packages whose
+		// tables the executed library code indexes
+		if fn.Pkg != nil && fn.Pkg.Pkg.Path() == "unicode/utf8" {
+			return nil, false
+		}
 		return nil, true
 	}
 	return nil, false
